@@ -85,7 +85,7 @@ def _algsig():
 
 
 def one_trace(rng, case, bname, parameter=True, observed=False, via_copy=False, per_obs=True, fail_first=False,
-              stale_before=False):
+              stale_before=False, stale_bij=False):
     """via_copy: the assignments are made on a deep copy of the built model (what the Goose interface and
     build_model(copy=True) work on); per_obs: the flag of the original distribution node."""
     dist_cls, pspec, x0 = CASES[case]
@@ -121,7 +121,15 @@ def one_trace(rng, case, bname, parameter=True, observed=False, via_copy=False, 
             return dict.__getitem__(self, k)
     pvals = _Derived(pvals)
     kw = {k: kw[k] for k in pspec}          # keyword order as listed in the case
-    bvar = lsl.Var(jnp.float32(2.0), name="bv")
+    bval = 2.0
+    if stale_bij:
+        # the bijector's argument is a calculated variable (2 * bv_root) whose root is changed before the transformation
+        broot = lsl.Var(jnp.float32(1.0), name="bv_root")
+        bvar = lsl.Var(lsl.Calc(lambda r: 2.0 * r, broot), name="bv")
+        broot.value = jnp.float32(1.7)
+        bval = float(np.float32(3.4))
+    else:
+        bvar = lsl.Var(jnp.float32(2.0), name="bv")
     pv_for_bij = {"__bv": bvar}
     x = lsl.Var(jnp.asarray(x0, jnp.float32), lsl.Dist(dist_cls, **kw), name="x")
     x.parameter, x.observed = parameter, observed
@@ -196,7 +204,7 @@ def one_trace(rng, case, bname, parameter=True, observed=False, via_copy=False, 
                     "parameter": bool(model.vars[n].parameter), "observed": bool(model.vars[n].observed)}
                 for n in ("x", "x_transformed")}
 
-    b = bij_now(pvals)
+    b = bij_now(pvals, bval)
     t0 = b.inverse(jnp.asarray(x0, jnp.float32))
     e.update({"names": ["x", "x_transformed"], "flags": flags(), "orig_value": fl(xx.value), "new_value": fl(tv.value),
               "copy_ok": copy_ok, "model_log_prob": fsum(model.log_prob), "model_log_prior": fsum(model.log_prior),
@@ -205,13 +213,15 @@ def one_trace(rng, case, bname, parameter=True, observed=False, via_copy=False, 
               "leaves": {"x": fl(x0), "t": fl(t0), "logp_b_t": fsum(orig_dist(pvals).log_prob(b.forward(t0))),
                          "fldj_t": fsum(fldj_total(b, t0))}})
     ev.append(e)
-    bval = 2.0
     for step in range(4):
         if step % 2 == 1 and (pvars or bname == "scale_class_var"):
             # change a parameter variable of the distribution / of the bijector
             if bname == "scale_class_var" and (not pvars or rng.random() < 0.5):
-                bval = rng.uniform(0.5, 4.0)
-                model.vars["bv"].value = jnp.float32(bval)
+                bval = float(np.float32(rng.uniform(0.5, 4.0)))
+                if stale_bij:
+                    model.vars["bv_root"].value = jnp.float32(bval / 2.0)
+                else:
+                    model.vars["bv"].value = jnp.float32(bval)
                 target = "bv"
             else:
                 k = rng.choice(sorted(pvars))
@@ -383,6 +393,8 @@ def all_traces(rng, reps=1):
                         ("uniform_varhi", "gb_default"), ("uniform_varhi", "default"), ("gamma_varparam", "gb_default"),
                         ("invgamma", "gb_default"), ("gamma_varparam", "exp_instance")):
         out.append(one_trace(rng, case, bname, stale_before=True))
+    # ... and the same for a calculated argument of the bijector
+    out.append(one_trace(rng, "normal_vec", "scale_class_var", stale_bij=True))
     # a failing first call (raises after the early checks), then the proper one
     for case, bname in (("exponential", "exp_instance"), ("gamma_varparam", "default"), ("halfnormal", "auto"),
                         ("invgamma", "gb_default"), ("exponential", "softplus_class_hinge")):
